@@ -18,6 +18,7 @@ D4 discriminants    each of the five reduces with a NaN-ignoring reducer over `a
                     return the callee's result.
 """
 import ast
+import copy
 import collections
 
 from .. import bitprov, tables, astutil
@@ -884,6 +885,21 @@ def passes_through(ctx, rule, f, callee_pred, data, axis, key, what):
     ctx.check(ok, rule, f'{key}::result', f'what is returned (`{norm(rets[0].value)[:50] if rets else "nothing"}`) is not the unmodified result of {what}', f'returns the result of {what} unmodified', f.where(rets[0]) if rets else f.where())
 
 
+class _WhereIsNan(ast.NodeTransformer):
+    """`where(isnan(x), c, x)` is `nan_to_num(x, nan=c)` with the infinities kept"""
+
+    def visit_Call(self, n):
+        self.generic_visit(n)
+        if last(norm(n.func)) == 'where' and len(n.args) == 3 and not n.keywords and isinstance(n.args[0], ast.Call) and last(norm(n.args[0].func)) == 'isnan' \
+                and len(n.args[0].args) == 1 and norm(n.args[0].args[0]) == norm(n.args[2]) and isinstance(n.args[2], ast.Name):
+            pref = norm(n.func).rsplit('.', 1)[0] + '.' if '.' in norm(n.func) else ''
+            new = ast.parse(f'{pref}nan_to_num(X, nan=0, posinf={pref}inf, neginf=-{pref}inf)', mode='eval').body
+            new.args[0] = n.args[2]
+            new.keywords[0].value = n.args[1]
+            return ast.copy_location(new, n)
+        return n
+
+
 def d4(ctx, prog):
     m = prog.need_mod(D)
     found = {}
@@ -893,6 +909,11 @@ def d4(ctx, prog):
     ctx.floor('C15 built-in discriminants', len(set(found) & set(EXPECT)), 5)
     for name, f in sorted(found.items()):
         data, axis = (f.params + ['?', '?'])[:2]
+        from .. import inline as _inl
+        f = _inl.inlined(prog, f)                 # private one-line helpers read in place
+        f_ = copy.copy(f)
+        f_.node = _WhereIsNan().visit(copy.deepcopy(f.node))
+        f = f_
         body = body_no_doc(f)
         key = f'{f.key}::reduction'
         if len(body) != 1 or not isinstance(body[0], ast.Return):
